@@ -26,6 +26,7 @@
 import OdfModel.Props.C06.Defs
 import OdfModel.Props.C06.Schema
 import OdfModel.Props.C06.Kw
+import OdfModel.Props.C06.Fuel
 import OdfModel.Props.C06.S00
 import OdfModel.Props.C06.S01
 import OdfModel.Props.C06.S02
@@ -83,6 +84,42 @@ theorem rowOk_parts {e : Nat} (h : rowOk e = true) :
     childrenRowOk e = true ∧ textRowOk e = true ∧ attrsRowOk e = true ∧ requiredRowOk e = true ∧ factoryRowOk e = true := by
   simp only [rowOk, Bool.and_eq_true] at h
   exact ⟨h.1.1.1.1, h.1.1.1.2, h.1.1.2, h.1.2, h.2⟩
+
+/-- **C06 (the schema side is fuel-independent)**: on the content of every element declaration of
+    the shipped schemas, the four semantic functions give the same answer at `FUEL` and at every
+    larger fuel. -/
+theorem schema_semantics_fuel_independent (d : Decl) (hd : d ∈ schema.elems.all) (k : Nat) :
+    mayElems schema (FUEL + k) d.content = mayElems schema FUEL d.content
+    ∧ mayText schema (FUEL + k) d.content = mayText schema FUEL d.content
+    ∧ mayAttrs schema (FUEL + k) d.content = mayAttrs schema FUEL d.content
+    ∧ mustAttrs schema (FUEL + k) d.content = mustAttrs schema FUEL d.content := by
+  have h := fuel_sufficient
+  rw [List.all_eq_true] at h
+  have hf := h d hd
+  simp only [Bool.and_eq_true] at hf
+  exact ⟨mayElems_fuel _ _ _ hf.2 k, mayText_fuel _ _ _ hf.2 k, mayAttrs_fuel _ _ _ hf.2 k, mustAttrs_fuel _ _ _ hf.2 k⟩
+
+/-! ### The property at full strength
+
+`C06_full` is the statement of the property with the documented `Exceptions` only.  It does **not**
+hold on the unchanged tree: the 89 rows of `KnownFindings` (= known-findings/C06.txt, each reproduced
+on the real code by harness/c06.py on every run) are counter-examples.  The theorems proved below
+are the same statements with the additional disjunct `∨ inKnownFindings …`, i.e. C06 for every row
+outside that explicit, decidable list; any *other* differing row makes them fail to check. -/
+
+def C06_full : Prop :=
+  (∀ p, p < GrammarTables.nElems → ∀ c,
+      allowsChild T p c = schema.permitsChild p c ∨ inExceptions .children (elemName p) (elemName c) = true)
+  ∧ (∀ e, e < GrammarTables.nElems →
+      allowsText' T e = schema.mayText e ∨ inExceptions .text (elemName e) NOITEM = true)
+  ∧ (∀ e, e < GrammarTables.nElems → ∀ kw b, setAttribute T true e kw = .ok b →
+      schema.permitsAttr e b = true ∨ inExceptions .attrs (elemName e) (attrName b) = true)
+  ∧ (∀ e, e < GrammarTables.nElems → ∀ a, (schema.mayAttrs e).contains a = true →
+      (a ≠ ANY ∧ (setAttribute T true e (kwOf T a)).isOk = true) ∨ inExceptions .attrs (elemName e) (attrName a) = true)
+  ∧ (∀ e, e < GrammarTables.nElems → ∀ a,
+      requiresAttr T e a = schema.requires e a ∨ inExceptions .required (elemName e) (attrName a) = true)
+  ∧ (∀ e, e < GrammarTables.nElems → schema.isElem e = true →
+      GrammarFactories.factoryQnames.contains e = true ∨ inExceptions .factory (elemName e) NOITEM = true)
 
 /-- **C06 (children)**: for every parent element of the tables and every child whatsoever,
     `addElement` with checks on accepts the child iff the shipped schema permits it there, or the
